@@ -166,7 +166,7 @@ func ruleC31impl(c *Ctx, r *Report, slots bool) {
 	del := c.Method(serverRel, "Manager", "DeleteNamespace")
 	allowedSwitch := map[*ssa.Function]string{commit: "commit", del: "delete"}
 	for _, s := range c.callSites(func(cc *ssa.CallCommon) bool { return onField(cc, switchF, "Set") }) {
-		if why, ok := allowedSwitch[s.Fn]; ok && s.Fn != nil {
+		if why, ok := allowedVia(c, allowedSwitch, s.Fn); ok && s.Fn != nil {
 			r.ok(rule, c.FuncName(s.Fn), "writes:switchIndex", c.Pos(s.In.Pos()), why)
 		} else if isFreshAlloc(rootOfAddr(callCommon(s.In).Args[0])) {
 			r.ok(rule, c.FuncName(s.Fn), "writes:switchIndex(new manager)", c.Pos(s.In.Pos()), "constructor")
